@@ -23,6 +23,7 @@ type inputRec struct {
 	Name string
 	W    int // 0 bool
 	T    *Term
+	Aux  bool // solver-side variable that the native replay does not consume (e.g. ideal-codec bytes)
 }
 
 type AssertFail struct {
@@ -104,6 +105,7 @@ type Exec struct {
 	sigSeen map[int]bool
 	sigApps []sigApp
 	sigInjective bool
+	sigNotInjective bool
 	params map[string]int
 	curInstrWhere string
 	labels []string
@@ -470,6 +472,9 @@ func (ex *Exec) witness() (map[string]string, []string, []string, bool) {
 	m := map[string]string{}
 	var names, vals []string
 	for _, in := range ex.inputs {
+		if in.Aux {
+			continue
+		}
 		v := ex.model[in.T.name]
 		if v == nil {
 			v = big.NewInt(0)
@@ -535,6 +540,9 @@ func (ex *Exec) checkAssert(c Value, id string, detail string) {
 	f := &AssertFail{ID: id, Kind: "assert", Detail: detail, Model: map[string]string{}}
 	if err == nil {
 		for _, in := range ex.inputs {
+			if in.Aux {
+				continue
+			}
 			v := m[in.T.name]
 			if v == nil {
 				v = big.NewInt(0)
@@ -574,6 +582,13 @@ func (ex *Exec) assume(c Value) {
 		}
 		ex.addPC(c)
 	}
+}
+
+// newAux creates a solver variable that is not an input of the native replay.
+func (ex *Exec) newAux(name string, w int) *Term {
+	t := ex.newInput(name, w)
+	ex.inputs[len(ex.inputs)-1].Aux = true
+	return t
 }
 
 func (ex *Exec) newInput(name string, w int) *Term {
